@@ -489,6 +489,8 @@ class SpecEval:
             pt = self.W.parse_type(sf.types[p])
             if isinstance(a.ty, TOpt) and not isinstance(pt, TOpt):
                 a = _unopt(a)
+            if isinstance(pt, TSeq) and isinstance(a.ty, TList):
+                a = self.to_seq(a, cx.heap)          # the current contents of the list, as a value
             a = coerce(a, pt)
             cargs.append(a)
             targs += list(a.t)
